@@ -46,7 +46,8 @@ func (rn *runner) runMatchCase(c *Case) {
 	rn.emit(obj("ev", js("xreset"), "fam", js("match"), "id", js(c.ID)))
 	rn.stats.cases++
 	var hs *mux.Hosts
-	var pv, hv mux.Matcher
+	var pv, hv, hv2 mux.Matcher
+	var alt Op
 	var cur *Op
 	do := func(op *Op) {
 		rn.stats.ops++
@@ -82,20 +83,34 @@ func (rn *runner) runMatchCase(c *Case) {
 			}
 			res, _ := guard(func() { hv = mux.NewHeaderVersion(op.Key, op.Val, errlog, op.Versions...) })
 			rn.emit(obj("ev", js("headerver"), "param", js(op.Key), "key", js(op.Val), "versions", jarr(op.Versions), "res", js(res)))
-		case "pv", "hvm":
-			ctx := types.NewContext()
-			ctx.Set("keep", "1") // a parameter captured earlier must survive untouched
-			req := mkRequest("GET", op.Path, "", op.Hdr)
-			var m mux.Matcher = pv
-			if op.Op == "hvm" {
-				m = hv
+			// a second matcher that reads ANOTHER Accept parameter: every request is shown to both, one after the other
+			alt = *op
+			alt.Val = "v"
+			if op.Val == "v" {
+				alt.Val = "version"
 			}
-			var ok bool
-			res, _ := guard(func() { ok = m.Match(req, ctx) })
-			rn.stats.exec++
-			rn.emit(obj("ev", js(op.Op), "param", js(cur.Key), "key", js(cur.Val), "versions", jarr(cur.Versions), "path", js(op.Path), "accept", js(op.Hdr["Accept"]),
-				"mime", mimeJSON(op.Hdr["Accept"]), "ok", jbool(ok), "newpath", js(req.URL.Path), "params", jmap(ctxParams(ctx)), "res", js(res)))
-			ctx.Destroy()
+			guard(func() { hv2 = mux.NewHeaderVersion(alt.Key, alt.Val, errlog, alt.Versions...) })
+		case "pv", "hvm":
+			one := func(m mux.Matcher, d *Op) {
+				ctx := types.NewContext()
+				ctx.Set("keep", "1") // a parameter captured earlier must survive untouched
+				req := mkRequest("GET", op.Path, "", op.Hdr)
+				var ok bool
+				res, _ := guard(func() { ok = m.Match(req, ctx) })
+				rn.stats.exec++
+				rn.emit(obj("ev", js(op.Op), "param", js(d.Key), "key", js(d.Val), "versions", jarr(d.Versions), "path", js(op.Path), "accept", js(op.Hdr["Accept"]),
+					"mime", mimeJSON(op.Hdr["Accept"]), "ok", jbool(ok), "newpath", js(req.URL.Path), "params", jmap(ctxParams(ctx)), "res", js(res)))
+				ctx.Destroy()
+			}
+			if op.Op == "pv" {
+				one(pv, cur)
+			} else {
+				one(hv, cur)
+				if hv2 != nil {
+					one(hv2, &alt)
+					one(hv, cur)
+				}
+			}
 		default:
 			panic("unknown match op " + op.Op)
 		}
